@@ -39,6 +39,15 @@ def oracle_hpcalls(ctx, cfg, rr):
 def gen_cfgs(ctx, n):
     rng = ctx.rng
     cfgs = []
+    # directed: roll-back histories — a state kept in memory while further factor updates go by is loaded again;
+    # the factors used afterwards must be those of the kept step (intervals count from the restored step)
+    for world in (1, 2):
+        cfg = kfacsim.Config(rng, world=world)
+        cfg.hyper_changes = []
+        cfg.hyper['factor_update_steps'] = rng.choice([1, 2])
+        it = ['f1'] * cfg.accum + ['s']
+        cfg.ops = it * 2 + ['k'] + it * rng.randrange(2, 5) + ['R11'] + it * 3
+        cfgs.append(cfg)
     while len(cfgs) < n:
         cfg = kfacsim.Config(rng, world=rng.choice([1, 1, 2, 3, 4]))
         cfg.hyper['factor_update_steps'] = rng.choice([1, 2, 3, 3, 5, [1, 2, 2, 1, 3, 1, 1, 2], [2, 2, 3, 3, 1, 1]])
